@@ -1871,14 +1871,36 @@ def _see_through_value_memos(mods: dict[str, Module], inv: dict, log: list[str])
                         if len(subs) != 1 or not all(isinstance(t, (ast.Name, ast.Subscript)) for t in st.targets):
                             ok = False
                         stores.append((st, subs[0]))
-                elif isinstance(st, (ast.AugAssign, ast.Delete)) and any(isinstance(x, ast.Name) and x.id == cname for x in ast.walk(st)):
+                elif isinstance(st, ast.Delete) and any(isinstance(x, ast.Name) and x.id == cname for x in ast.walk(st)):
+                    # dropping entries never changes what an entry holds
+                    if not all(isinstance(t, ast.Subscript) and isinstance(t.value, ast.Name) and t.value.id == cname for t in st.targets):
+                        ok = False
+                elif isinstance(st, ast.AugAssign) and any(isinstance(x, ast.Name) and x.id == cname for x in ast.walk(st)):
                     ok = False
-                elif isinstance(st, ast.Call) and isinstance(st.func, ast.Attribute) and isinstance(st.func.value, ast.Name) and st.func.value.id == cname and st.func.attr != "get":
-                    ok = False
+                elif isinstance(st, ast.Call) and isinstance(st.func, ast.Attribute) and isinstance(st.func.value, ast.Name) and st.func.value.id == cname and st.func.attr not in ("get", "clear", "popitem"):
+                    if not (st.func.attr == "pop" and any(isinstance(e_, ast.Expr) and e_.value is st for e_ in ast.walk(fn))):
+                        ok = False
             if not ok or len(stores) != 1:
                 continue
             st, sub = stores[0]
             E, K = st.value, sub.slice
+            held = {t.id for t in st.targets if isinstance(t, ast.Name)}
+            if isinstance(E, ast.Name):
+                # `m = E'` directly before `CACHE[K] = m`
+                held.add(E.id)
+                prev = None
+                for b in ast.walk(fn):
+                    for fld in ("body", "orelse", "finalbody"):
+                        lst = getattr(b, fld, None)
+                        if isinstance(lst, list) and any(x is st for x in lst):
+                            i0 = next(k for k, x in enumerate(lst) if x is st)
+                            prev = lst[i0 - 1] if i0 > 0 else None
+                if not (isinstance(prev, ast.Assign) and len(prev.targets) == 1 and isinstance(prev.targets[0], ast.Name) and prev.targets[0].id == E.id
+                        and not any(isinstance(x, ast.Name) and x.id == E.id for x in ast.walk(prev.value))):
+                    continue
+                E = prev.value
+            if _memo_value_mutated(mod, funcs, q, fn, cname, held):
+                continue
             env = {}
             for a in ast.walk(fn):
                 if isinstance(a, ast.Assign) and len(a.targets) == 1 and isinstance(a.targets[0], ast.Name):
@@ -1925,9 +1947,29 @@ def _see_through_value_memos(mods: dict[str, Module], inv: dict, log: list[str])
                         hfree = {x.id for x in ast.walk(hf) if isinstance(x, ast.Name) and isinstance(x.ctx, ast.Load)} - hloc - module_level - set(dir(builtins))
                         if hfree or any(isinstance(x, (ast.Global, ast.Nonlocal, ast.Yield)) for x in ast.walk(hf)) or "random" in ast.unparse(hf):
                             closed = False
+                elif isinstance(c.func, ast.Name) and c.func.id in params and c.func.id in kset:
+                    pass  # the callable is itself part of the key: the entry is what *that* callable gives for the rest of the key (callables are taken as deterministic, cf. DESIGN 10.11)
                 elif not _pure(ast.Expr(value=ast.Call(func=c.func, args=[], keywords=[]))):
                     closed = False
             if not closed or "random" in ast.unparse(E):
+                continue
+            # every load of the dict is a read of the stored key, a membership test, a size test or an eviction
+            n_loads = sum(1 for x in ast.walk(fn) if isinstance(x, ast.Name) and x.id == cname)
+            n_known = 0
+            for x in ast.walk(fn):
+                if isinstance(x, ast.Subscript) and isinstance(x.value, ast.Name) and x.value.id == cname:
+                    if isinstance(x.ctx, ast.Load) and ast.unparse(x.slice) != ast.unparse(K):
+                        n_known -= 100
+                    n_known += 1
+                elif isinstance(x, ast.Call) and isinstance(x.func, ast.Attribute) and isinstance(x.func.value, ast.Name) and x.func.value.id == cname:
+                    if x.func.attr == "get" and not (len(x.args) == 1 and not x.keywords and ast.unparse(x.args[0]) == ast.unparse(K)):
+                        n_known -= 100
+                    n_known += 1
+                elif isinstance(x, ast.Call) and isinstance(x.func, ast.Name) and x.func.id in ("len", "iter") and len(x.args) == 1 and isinstance(x.args[0], ast.Name) and x.args[0].id == cname:
+                    n_known += 1
+                elif isinstance(x, ast.Compare) and len(x.ops) == 1 and isinstance(x.ops[0], (ast.In, ast.NotIn)) and isinstance(x.comparators[0], ast.Name) and x.comparators[0].id == cname:
+                    n_known += 1
+            if n_known != n_loads:
                 continue
             ktext = ast.unparse(K)
             n_reads = 0
@@ -1962,9 +2004,120 @@ def _see_through_value_memos(mods: dict[str, Module], inv: dict, log: list[str])
             if holder is None:
                 continue
             i = next(k for k, x in enumerate(holder) if x is st)
-            holder[i] = ast.copy_location(ast.Assign(targets=rest, value=E), st) if rest else ast.copy_location(ast.Pass(), st)
+            holder[i] = ast.copy_location(ast.Assign(targets=rest, value=_clone(E)), st) if rest else ast.copy_location(ast.Pass(), st)
+            _drop_evictions(fn, cname)
+            _drop_refill_guards(fn)
             ast.fix_missing_locations(fn)
             log.append(f"{mod.relpath} {q}: value memo `{cname}[{ktext}]` read as `{ast.unparse(E)[:60]}` ({n_reads} read(s))")
+
+
+def _names_written_through(fn: ast.AST, name: str) -> bool:
+    for x in ast.walk(fn):
+        if isinstance(x, (ast.Subscript, ast.Attribute)) and isinstance(x.ctx, (ast.Store, ast.Del)):
+            r = x.value
+            while isinstance(r, (ast.Subscript, ast.Attribute)):
+                r = r.value
+            if isinstance(r, ast.Name) and r.id == name:
+                return True
+        if isinstance(x, ast.AugAssign) and isinstance(x.target, ast.Name) and x.target.id == name:
+            return True
+        if isinstance(x, ast.Call) and isinstance(x.func, ast.Attribute) and isinstance(x.func.value, ast.Name) and x.func.value.id == name and x.func.attr not in PURE_METHODS:
+            return True
+        if isinstance(x, ast.Call) and any(k.arg == "out" and isinstance(k.value, ast.Name) and k.value.id == name for k in x.keywords):
+            return True
+    return False
+
+
+def _memo_value_mutated(mod: Module, funcs: dict, q: str, fn: ast.AST, cname: str, held: set[str]) -> bool:
+    """Seeing through a memo gives every reader its own copy of the entry; that is only what the program does when no reader writes into the object it is handed.
+    Followed inside the module: the names holding the stored value or a read in `fn`, the names bound to `fn(...)` in its callers, and one level of `return fn(...)`."""
+    held = set(held)
+    for x in ast.walk(fn):
+        if isinstance(x, (ast.Assign, ast.AnnAssign)) and x.value is not None:
+            v = x.value
+            if (isinstance(v, ast.Subscript) and isinstance(v.value, ast.Name) and v.value.id == cname) or (
+                    isinstance(v, ast.Call) and isinstance(v.func, ast.Attribute) and isinstance(v.func.value, ast.Name) and v.func.value.id == cname):
+                held |= {t.id for t in (x.targets if isinstance(x, ast.Assign) else [x.target]) if isinstance(t, ast.Name)}
+    if any(_names_written_through(fn, h) for h in held):
+        return True
+    short = q.split(".")[-1]
+    level = [short]
+    for _ in range(2):
+        nxt = []
+        for gq, g in funcs.items():
+            if g is fn:
+                continue
+            for x in ast.walk(g):
+                if isinstance(x, (ast.Assign, ast.AnnAssign)) and isinstance(x.value, ast.Call):
+                    cal = x.value.func
+                    nm = cal.id if isinstance(cal, ast.Name) else cal.attr if isinstance(cal, ast.Attribute) else None
+                    if nm in level:
+                        for t in (x.targets if isinstance(x, ast.Assign) else [x.target]):
+                            if not isinstance(t, ast.Name) or _names_written_through(g, t.id):
+                                return True
+                elif isinstance(x, ast.Return) and isinstance(x.value, ast.Call):
+                    cal = x.value.func
+                    nm = cal.id if isinstance(cal, ast.Name) else cal.attr if isinstance(cal, ast.Attribute) else None
+                    if nm in level:
+                        nxt.append(gq.split(".")[-1])
+        level = nxt
+        if not level:
+            break
+    return False
+
+
+def _drop_refill_guards(fn: ast.AST) -> None:
+    """`m = E` followed by `if m is None: m = E` (what a get-or-compute becomes once the read is E itself): the guard re-evaluates the same pure expression."""
+    for b in ast.walk(fn):
+        for fld in ("body", "orelse", "finalbody"):
+            lst = getattr(b, fld, None)
+            if not (isinstance(lst, list) and lst and isinstance(lst[0], ast.stmt)):
+                continue
+            k = 0
+            while k + 1 < len(lst):
+                a, g = lst[k], lst[k + 1]
+                if isinstance(a, ast.Assign) and len(a.targets) == 1 and isinstance(a.targets[0], ast.Name) and isinstance(g, ast.If) and not g.orelse \
+                        and isinstance(g.test, ast.Compare) and len(g.test.ops) == 1 and isinstance(g.test.ops[0], ast.Is) and isinstance(g.test.left, ast.Name) \
+                        and g.test.left.id == a.targets[0].id and isinstance(g.test.comparators[0], ast.Constant) and g.test.comparators[0].value is None:
+                    body = [y for y in g.body if not isinstance(y, ast.Pass)]
+                    if len(body) == 1 and isinstance(body[0], ast.Assign) and ast.unparse(body[0].targets) == ast.unparse(a.targets) and ast.unparse(body[0].value) == ast.unparse(a.value):
+                        del lst[k + 1]
+                        continue
+                k += 1
+
+
+def _drop_evictions(fn: ast.AST, cname: str) -> None:
+    """With the store gone the dict stays empty: statements that only remove entries (`del C[k]`, `C.pop(k)`, `C.popitem()`, `C.clear()`) do nothing, and an `if`
+    with a call-free size test left guarding nothing goes with them."""
+    def evicts(s: ast.stmt) -> bool:
+        if isinstance(s, ast.Delete):
+            return all(isinstance(t, ast.Subscript) and isinstance(t.value, ast.Name) and t.value.id == cname for t in s.targets)
+        return isinstance(s, ast.Expr) and isinstance(s.value, ast.Call) and isinstance(s.value.func, ast.Attribute) and isinstance(s.value.func.value, ast.Name) \
+            and s.value.func.value.id == cname and s.value.func.attr in ("pop", "popitem", "clear")
+
+    changed = True
+    while changed:
+        changed = False
+        for b in ast.walk(fn):
+            for fld in ("body", "orelse", "finalbody"):
+                lst = getattr(b, fld, None)
+                if not (isinstance(lst, list) and lst and isinstance(lst[0], ast.stmt)):
+                    continue
+                new = []
+                dropped = False
+                for s in lst:
+                    if evicts(s):
+                        dropped = True
+                        continue
+                    if isinstance(s, ast.If) and all(isinstance(y, ast.Pass) for y in s.body + s.orelse) and _pure(s.test) and any(isinstance(y, ast.Name) and y.id == cname for y in ast.walk(s.test)):
+                        dropped = True
+                        continue
+                    new.append(s)
+                if dropped:
+                    if not new and fld == "body":
+                        new = [ast.copy_location(ast.Pass(), lst[0])]
+                    lst[:] = new
+                    changed = True
 
 
 def _append_loops_to_comprehensions(mods: dict[str, Module], log: list[str]) -> None:
